@@ -39,7 +39,11 @@ INITIAL_MISSED = {"C01-m1", "C03-m2", "C04-m1", "C05-m1", "C08-m1", "C09-m1", "C
                   # eleventh round (the least-touched cells of each property)
                   "C01-r11m1", "C02-r11m1", "C02-r11m2", "C03-r11m1", "C03-r11m2", "C03-r11m3", "C04-r11m1", "C04-r11m3", "C05-r11m3",
                   "C06-r11m1", "C08-r11m1", "C09-r11m1", "C10-r11m2", "C15-r11m2", "C15-r11m3", "C16-r11m1", "C16-r11m3", "C17-r11m1",
-                  "C20-r11m1", "C20-r11m3"}
+                  "C20-r11m1", "C20-r11m3",
+                  # twelfth round (feature additions and reworked bug fixes)
+                  "C02-r12m3", "C03-r12m1", "C03-r12m2", "C03-r12m3", "C04-r12m1", "C05-r12m2", "C05-r12m3", "C09-r12m1", "C09-r12m3",
+                  "C10-r12m1", "C10-r12m2", "C10-r12m3", "C11-r12m1", "C12-r12m3", "C13-r12m1", "C13-r12m3", "C14-r12m3", "C15-r12m2",
+                  "C16-r12m2", "C16-r12m3", "C18-r12m3", "C20-r12m1", "C20-r12m3"}
 # --seed N: run at another VERIF_SEED and only print the verdicts (meta.json untouched) - finds catches that depend on luck
 args = sys.argv[1:]
 seed = None
